@@ -749,7 +749,8 @@ class Element(object):
         :param: report_file: the report file to pass to the validator
         :param: return_errors: return errors and warnings instead of raising
         """
-        return Validator.validate(self, reference=self.reference, report_file=report_file, return_errors=return_errors)
+        return Validator.validate(self, reference=getattr(self, 'reference', None), report_file=report_file,
+                                  return_errors=return_errors)
 
     def is_z_element(self):
         return False
